@@ -70,6 +70,17 @@ fn gen(rng: &mut Rng, _idx: u64, tier: Tier) -> Case {
     if rng.chance(0.4) { args.push("--relaxed".into()); }
     let n = if tier == Tier::Thorough && rng.chance(0.05) { rng.range(100, 500) } else { rng.range(3, 50) } as usize;
     let mut lines: Vec<(i64, Vec<u8>, String)> = vec![];
+    // sometimes the sky is crowded: well over a hundred other aircraft are already being tracked
+    if rng.chance(0.04) {
+        let crowd = rng.range(100, 260) as usize;
+        let base = (rng.bits(24) as u32 | 0x100000) & 0xFFF000;
+        for i in 0..crowd {
+            let mut ac = gen::aircraft(rng, base + 1 + i as u32);
+            let k = *rng.pick(&[Kind::Df11, Kind::Ident, Kind::AirPos, Kind::Df4, Kind::Df5]);
+            let f = gen::frame(rng, &mut ac, k, true);
+            lines.push((if rng.chance(0.1) { rng.range(0, 50_000) } else { 0 }, gen::line_of(rng, &f, false), "crowd".into()));
+        }
+    }
     for _ in 0..n {
         let a = rng.below(n_ac as u64) as usize;
         let dt = gen::gap_us(rng, d).min(8_000_000);
